@@ -85,6 +85,11 @@ def gather_states(tier, run, budget=None, extra_models=True):
             if m not in seen:
                 res.append((m, tr, 'three-namespace-alias-chain', ('aliases', 'imports', 'ns', 'routes', 'unions', 'wrappers', 'defaults'), 3))
         run.bounds['three_namespace_alias_chain_models'] = len(tnc)
+        irm = profiles.import_reason_models()
+        for m, tr in irm:
+            if m not in seen:
+                res.append((m, tr, 'import-reasons', ('aliases', 'annotations', 'docs', 'imports', 'ns', 'routes', 'unions', 'wrappers'), 3))
+        run.bounds['import_reason_models'] = len(irm)
     return res
 
 
